@@ -2869,6 +2869,7 @@ def _rewrite_nodes(nodes: List[object], promoted: Set[str]) -> List[object]:
                     body=_rewrite_nodes(node.body, promoted),
                     hoist_count=node.hoist_count,
                     private_counter=node.private_counter,
+                    outer_variable=node.outer_variable,
                 )
             )
             continue
@@ -3646,7 +3647,15 @@ def _parse_simple_lines(
                 child_ctx["tmp_counter"] = ctx["tmp_counter"]
 
             child_ctx["vars"][var_name] = _ExprStr(var_name)
-            child_ctx["var_types"][var_name] = "int"
+            # ``for i in range(..)`` with ``i`` already a variable (of the sketch, a
+            # parameter ...) assigns that variable; the limit is evaluated before
+            # (``for n in range(n)``) and the variable keeps its last value afterwards
+            outer_variable = var_name in base_declared
+            if outer_variable:
+                hoist_count = hoist_count or isinstance(count, str)
+                _forget_constants(ctx, {var_name})
+            else:
+                child_ctx["var_types"][var_name] = "int"
 
             loop_body = _parse_simple_lines(
                 block,
@@ -3708,6 +3717,7 @@ def _parse_simple_lines(
                     body=loop_body,
                     hoist_count=hoist_count,
                     private_counter=var_name in _names_bound_in_block(block),
+                    outer_variable=outer_variable,
                 )
             )
             i = next_idx
